@@ -282,6 +282,33 @@ fn answer<M: MemoizerKind>(
         }
         a
     });
+    // C08: the three stringification paths of a value (`write`, `as_string`, `into_string`) agree, with and
+    // without a formatter; `FluentValue` equality is reflexive on strings, numbers and custom values
+    let mut stringify = String::new();
+    if let Some(ps) = &rq.args {
+        let scope = fluent_bundle::resolver::Scope::new(bundle, None, None);
+        for (k, t) in ps {
+            let v = tok_value(t);
+            let mut w = String::new();
+            let _ = v.write(&mut w, &scope);
+            let a = v.as_string(&scope).into_owned();
+            let i = v.clone().into_string(&scope).into_owned();
+            if w != a || a != i {
+                stringify.push_str(&format!(" STRINGIFY-DISAGREE({}: write={:?} as_string={:?} into_string={:?})", k, w, a, i));
+            }
+            let reflexive = match &v {
+                FluentValue::Number(n) if n.value.is_nan() => true,
+                FluentValue::String(_) | FluentValue::Number(_) | FluentValue::Custom(_) => v == v.clone(),
+                _ => true,
+            };
+            if !reflexive {
+                stringify.push_str(&format!(" VALUE-EQ-NOT-REFLEXIVE({})", k));
+            }
+        }
+    }
+    if !stringify.is_empty() {
+        return format!("T - [] W - []{}", stringify);
+    }
     if let Some(sh) = shared {
         // C08 (ev=shared): the caller re-uses ONE error list for the whole history; a call may only append
         let before: Vec<FluentError> = sh.clone();
